@@ -5,6 +5,9 @@ package main
 
 import (
 	"fmt"
+	"net/http"
+	"net/http/httptest"
+	"strings"
 	"os"
 	"path/filepath"
 	"sync/atomic"
@@ -212,4 +215,37 @@ func TestReproF4(t *testing.T) {
 		t.Fatalf("setup: the interleaving login(old) before update(new) never happened in %d rounds", rounds)
 	}
 	t.Logf("%d of %d rounds had the login handled before the update; the new password always survived", interleaved, rounds)
+}
+
+// F10 (C06/C07): a session whose nonce part does not have the AEAD's nonce size makes cipher.AEAD.Open panic; over HTTP
+// the request then gets no status at all (net/http recovers the panic and closes the connection).
+func TestReproF10(t *testing.T) {
+	w, err := NewWebSessionFactory(600 * time.Second)
+	if err != nil {
+		t.Fatal(err)
+	}
+	for _, sess := range []string{"YQ==:Yg==", ":", "AAAA:AAAAAAAAAAAAAAAAAAAAAAAA"} {
+		func() {
+			defer func() {
+				if r := recover(); r != nil {
+					t.Errorf("Check(%q) panicked: %v", sess, r)
+				}
+			}()
+			if st, _, _, _ := w.Check(sess); st == http.StatusOK {
+				t.Errorf("Check(%q) accepted", sess)
+			}
+		}()
+	}
+	mux := http.NewServeMux()
+	mux.Handle("/api/list", webHandler{nil, w, handleWebList})
+	srv := httptest.NewServer(mux)
+	defer srv.Close()
+	resp, err := http.Post(srv.URL+"/api/list", "application/json", strings.NewReader(`{"session":"YQ==:Yg=="}`))
+	if err != nil {
+		t.Fatalf("the request got no response at all: %v", err)
+	}
+	defer resp.Body.Close()
+	if resp.StatusCode < 400 {
+		t.Errorf("status %d", resp.StatusCode)
+	}
 }
